@@ -16,12 +16,19 @@ package webrtc
 //   P2 append: mids that are new in a generated description come after all sections carried over from earlier
 //      descriptions (re-use of the slot of a section that was rejected in the previous description is tolerated and
 //      counted, JSEP allows it; pion never does it).
-// Descriptions with a duplicated mid are C06's finding: they are counted, the positional oracles skip the duplicate,
-// and the history stops there (the duplicate breaks the preconditions of every later round).
+//   U1 one section per mid: the statement speaks of "its m-section" and of new sections never re-using a mid, so the mid
+//      a transceiver of the connection holds names exactly one m-section of every description the connection generates.
+//      A generated description that carries such a mid on two (or more) sections is a violation, unless the connection
+//      only mirrors a duplicate that a description it applied earlier (for an answer: the remote offer) already had.
+//      The signature classifies the sections sharing the mid (carried-over slot or new, media or application).
+//      The positional oracles skip the duplicate, and the history stops there (the duplicate breaks the preconditions
+//      of every later round). Duplicates on a mid no transceiver of the connection holds are only counted.
 //
 // Workload: Unified Plan only (a Plan-B section has several transceivers, the statement is about one transceiver per
 // mid). pair: two pion PeerConnections, 2..10 complete rounds, offerer alternating (sometimes the same peer twice), no
-// rollback, random additions / RemoveTrack / Stop / data channels on both peers between rounds. gen: the remote side is
+// rollback, random additions / RemoveTrack / Stop / data channels on both peers between rounds; each PeerConnection has
+// Configuration.AlwaysNegotiateDataChannels with probability 0.2 (an application section it never asked for through
+// CreateDataChannel then appears in its first offer, possibly a renegotiation offer). gen: the remote side is
 // a foreign peer model that offers sparse / non-numeric / mixed mids, answers pion's offers by mirroring them, and
 // adds (or rejects) sections of its own between rounds.
 
@@ -52,6 +59,7 @@ type c09Conn struct {
 	firstIdx map[string]int    // mid -> index in the first description that contained it
 	firstKnd map[string]string // mid -> media kind there
 	firstID  map[string]int    // mid -> id of that description
+	dupSeen  map[string]int    // mid -> id of the first applied description that carried it on several sections
 	midOf    map[*RTPTransceiver]string
 	order    []*RTPTransceiver
 	nTracks  int
@@ -94,7 +102,7 @@ func (h *c09Hist) violation(sig, what string) {
 func c09NewConn(name string, pc *PeerConnection) *c09Conn {
 	return &c09Conn{
 		name: name, pc: pc, firstIdx: map[string]int{}, firstKnd: map[string]string{}, firstID: map[string]int{},
-		midOf: map[*RTPTransceiver]string{},
+		midOf: map[*RTPTransceiver]string{}, dupSeen: map[string]int{},
 	}
 }
 
@@ -186,7 +194,29 @@ func (c *c09Conn) generated(h *c09Hist, rec c09Rec) { //nolint:cyclop
 	if len(dups) > 0 {
 		h.run.Count("descriptions_with_duplicate_mid", 1)
 		h.stop = true
-		h.stopReason = "duplicate mid (C06 finding)"
+		h.stopReason = "duplicate mid"
+		c.duplicates(h, rec)
+	}
+	if rec.typ == "offer" && len(c.applied) > 0 {
+		newMedia, newApp := false, false
+		for i, mid := range rec.mids {
+			if first, old := c.firstIdx[mid]; mid == "" || (old && first == i) {
+				continue
+			}
+			if rec.kinds[i] == "application" {
+				newApp = true
+			} else {
+				newMedia = true
+			}
+		}
+		switch {
+		case newMedia && newApp:
+			h.run.Count("reneg_offers_new_media_and_new_application", 1)
+		case newApp:
+			h.run.Count("reneg_offers_new_application_only", 1)
+		case newMedia:
+			h.run.Count("reneg_offers_new_media_only", 1)
+		}
 	}
 	var prev *c09Rec
 	if len(c.applied) > 0 {
@@ -239,6 +269,49 @@ func (c *c09Conn) generated(h *c09Hist, rec c09Rec) { //nolint:cyclop
 	}
 }
 
+// duplicates is U1 for a generated description in which some mid occurs on several sections.
+func (c *c09Conn) duplicates(h *c09Hist, rec c09Rec) {
+	for _, mid := range rec.dupMids() {
+		if id, inherited := c.dupSeen[mid]; inherited {
+			h.run.Count("duplicate_mid_mirrored", 1)
+			h.logf("  %s %d mirrors duplicate mid %q of description %d", rec.typ, rec.id, mid, id)
+
+			continue
+		}
+		holder := -1
+		for _, t := range c.pc.GetTransceivers() {
+			if t.Mid() == mid {
+				holder = c.indexOf(t)
+			}
+		}
+		if holder < 0 {
+			h.run.Count("duplicate_mid_without_transceiver", 1)
+
+			continue
+		}
+		var classes, where []string
+		for i, m := range rec.mids {
+			if m != mid {
+				continue
+			}
+			class := "new-"
+			if first, old := c.firstIdx[mid]; old && first == i {
+				class = "carried-"
+			}
+			if rec.kinds[i] == "audio" || rec.kinds[i] == "video" {
+				class += "media"
+			} else {
+				class += rec.kinds[i]
+			}
+			classes = append(classes, class)
+			where = append(where, fmt.Sprintf("%d (m=%s)", i, rec.kinds[i]))
+		}
+		h.violation("mid-shared-by-sections:"+rec.typ+":"+strings.Join(classes, "+"), fmt.Sprintf(
+			"%s: %s %d carries mid %q, held by transceiver #%d, on the sections at index %s; no description applied before had that duplicate; now: %s",
+			c.name, rec.typ, rec.id, mid, holder, strings.Join(where, " and "), rec))
+	}
+}
+
 // apply records a description the connection applied (local or remote).
 func (c *c09Conn) apply(rec c09Rec, origin string) {
 	rec.origin = origin
@@ -246,6 +319,11 @@ func (c *c09Conn) apply(rec c09Rec, origin string) {
 	dups := map[string]bool{}
 	for _, m := range rec.dupMids() {
 		dups[m] = true
+	}
+	for m := range dups {
+		if _, ok := c.dupSeen[m]; !ok {
+			c.dupSeen[m] = rec.id
+		}
 	}
 	for i, mid := range rec.mids {
 		if mid == "" || dups[mid] {
@@ -700,15 +778,16 @@ func (h *c09Hist) runGen(c *c09Conn, style int) { //nolint:cyclop
 func TestVerifC09(t *testing.T) {
 	run := kit.Start(t, "C09", "seeded Unified-Plan renegotiation histories without rollback (pure function of seed,index): "+
 		"pair = two pion PeerConnections, 2..10 complete rounds, offerer alternating with probability 0.8, random AddTransceiverFromKind/FromTrack, "+
-		"AddTrack, CreateDataChannel, RemoveTrack, Stop and SetMid-overwrite probes on both peers between rounds; gen = one pion PeerConnection against a "+
+		"AddTrack, CreateDataChannel, RemoveTrack, Stop and SetMid-overwrite probes on both peers between rounds, each PeerConnection with "+
+		"AlwaysNegotiateDataChannels with probability 0.2; gen = one pion PeerConnection against a "+
 		"foreign peer model (dense / sparse / non-numeric / mixed mids by index) that offers, mirrors pion's offers and adds or rejects sections itself. "+
-		"Every generated description and Mid() of every transceiver after every step are checked. Non-trivial: >= 3 completed rounds and >= 1 addition "+
+		"Every generated description (positions, appending, one section per transceiver mid) and Mid() of every transceiver after every step are checked. Non-trivial: >= 3 completed rounds and >= 1 addition "+
 		"after the first round; distinct by the operation/outcome log")
 	defer run.Finish()
 	run.Assume("Unified Plan only: under Plan-B one m-section carries several transceivers and transceivers get no individual mid")
 	run.Assume("'earlier local or remote description' = descriptions the connection applied (SetLocalDescription / SetRemoteDescription succeeded)")
 	run.Assume("re-use of the slot of a section that was rejected in the previous description (JSEP recycling) would be tolerated and counted; other placements of new sections before carried-over ones are violations")
-	run.Assume("descriptions with a duplicated mid are C06's finding: counted (descriptions_with_duplicate_mid), not reported here; the history stops")
+	run.Assume("a mid names one m-section: a generated description carrying the mid of one of the connection's transceivers on several sections violates 'its m-section keeps the same mid and position' / 'new sections never reuse a mid', unless the duplicate is mirrored from a description applied earlier (remote offer); the history stops at the first duplicate")
 	run.Assume("foreign offers contain only audio/video/application sections with a direction attribute (other sections are dropped by pion's answer, C07's finding)")
 
 	n := kit.N(480, 8000)
@@ -722,7 +801,12 @@ func TestVerifC09(t *testing.T) {
 			}
 		}()
 		mk := func(name string) *c09Conn {
-			pc, err := rigNewPC(rigOpts{Cfg: Configuration{SDPSemantics: SDPSemanticsUnifiedPlan}})
+			always := r.Chance(0.2)
+			if always {
+				run.Count("pc_always_negotiate_data_channels", 1)
+				h.logf("%s has AlwaysNegotiateDataChannels", name)
+			}
+			pc, err := rigNewPC(rigOpts{Cfg: Configuration{SDPSemantics: SDPSemanticsUnifiedPlan, AlwaysNegotiateDataChannels: always}})
 			if err != nil {
 				panic(fmt.Sprintf("NewPeerConnection: %v", err))
 			}
